@@ -281,6 +281,11 @@ package mod
 //@   requires forall k string :: imp(has(s3db.tables, k) && s3db.tables[k] != nil, s3db.tables[k].Tree != nil && s3db.tables[k].Tree.Root != nil && dbOK(s3db.tables[k].Tree.Root))
 //@   modifies gf(ctx.Context.ptr, "resKind"), gfs(ctx.Context.ptr, "resText")
 //@   ensures no-request: puts == old(puts) && deletes == old(deletes) && lists == old(lists)
+// a name is handed out only when it denotes what the table shows: a writable table with uncommitted
+// changes gets an error, never a name (in particular never "[]", the name of the empty version)
+//@   ensures uncommitted-changes-get-no-name: imp(aggData(ctx) != nil && aggData(ctx).(*VersionFuncContext).tableName != "" && has(s3db.tables, aggData(ctx).(*VersionFuncContext).tableName) &&
+//@       s3db.tables[aggData(ctx).(*VersionFuncContext).tableName] != nil && !s3db.tables[aggData(ctx).(*VersionFuncContext).tableName].Tree.Root.readonly &&
+//@       (s3db.tables[aggData(ctx).(*VersionFuncContext).tableName].Tree.Root.tombstoned || mastDirty(*s3db.tables[aggData(ctx).(*VersionFuncContext).tableName].Tree.Root.crdt.Mast)), gf(ctx.Context.ptr, "resKind") == 6)
 
 // s3db_vacuum: the table-valued function hands the parsed cutoff to
 // s3db.Vacuum; on a read-only table nothing is written (C13).
